@@ -178,6 +178,17 @@ theorem writeSlice16_inv {α : Type} {f : Pool → α → W} {xs : List α} {p p
   cases this
   exact ⟨hl, bb, h3, rfl⟩
 
+/-- a `u2`-counted table written row by row -/
+theorem table_spec {α β : Type} (f : Pool → α → W) (enc : β → Bytes) (R : Pool → α → β → Prop)
+    (hmono : ∀ p p' a l, Le p p' → R p a l → R p' a l)
+    (hf : ∀ p p' a b, Good p → f p a = .ok (b, p') → Step p p' ∧ ∃ l, b = enc l ∧ R p' a l)
+    {xs : List α} {p p' : Pool} {b : Bytes} (hg : Good p) (h : writeSlice16 f p xs = .ok (b, p')) :
+    Step p p' ∧ ∃ ls : List β, b = be16 ls.length ++ ls.flatMap enc ∧ ls.length = xs.length ∧ ls.length < 65536 ∧
+      ∀ x ∈ ls.zip xs, R p' x.2 x.1 := by
+  obtain ⟨hl, bb, h1, rfl⟩ := writeSlice16_inv h
+  obtain ⟨s, ls, rfl, hlen, hr⟩ := writeList_spec f enc R hmono hf xs p p' bb hg h1
+  exact ⟨s, ls, by rw [hlen], hlen, by omega, hr⟩
+
 /-- a `u2`-counted list of class references (`Exceptions`, `NestMembers`, `PermittedSubclasses`, `uses`, …) -/
 theorem classList_spec {cs : List JStr} {p p' : Pool} {b : Bytes} (hg : Good p)
     (h : writeSlice16 (fun p c => idx16 (putClass p c)) p cs = .ok (b, p')) :
